@@ -31,16 +31,19 @@ inductive Op
 structure Frame where
   k : Bool → Prog Int
   evts : List Evt
+  anchor : St      -- ghost: the state in which the suspended program was started
+  susp : St        -- ghost: the state in which it suspended
 
 structure Cfg where
   st : St := {}
   stack : List Frame := []
 
 /-- run a program until it returns or suspends -/
-def exec (c : Cfg) (p : Prog Int) : Cfg :=
+def exec (c : Cfg) (anchor : St) (p : Prog Int) : Cfg :=
   match runP p c.st with
   | (s, .inl code) => { c with st := s.emit (.ret code) }
-  | (s, .inr (cb, m, e, k)) => { st := s.emit (.invoke cb.name m e), stack := { k := k, evts := e } :: c.stack }
+  | (s, .inr (cb, m, e, k)) =>
+    { st := s.emit (.invoke cb.name m e), stack := { k := k, evts := e, anchor := anchor, susp := s } :: c.stack }
 
 /-- the program of an API line -/
 def apiProg (c : Cfg) : Op → Prog Int
@@ -83,9 +86,9 @@ def step (c : Cfg) : Op → Cfg
   | .ret b =>
     match c.stack with
     | [] => c                                   -- a `ret` at top level is ignored
-    | f :: rest => exec { c with stack := rest } (f.k b)
+    | f :: rest => exec { c with stack := rest } f.anchor (f.k b)
   | .errno e => { c with st := { c.st with errno := e } }
-  | op => exec c (apiProg c op)
+  | op => exec c c.st (apiProg c op)
 
 def run (c : Cfg) (ops : List Op) : Cfg := ops.foldl step c
 
